@@ -100,6 +100,9 @@ def intern_protocol(rep: Report, prog: Program) -> None:
             why = ""
             if txt.startswith("cls._known[") or txt.startswith("cls._by_name[") or txt == "IdentityPrefix":
                 ok = True
+            elif isinstance(v, ast.Call) and isinstance(v.func, ast.Attribute) and v.func.attr == "setdefault" \
+                    and ast.unparse(v.func.value) == "cls._known" and len(v.args) == 2:
+                ok = True   # stores the fresh object under its key unless one is there, and returns whichever is interned
             elif isinstance(v, ast.Name):
                 # fresh object: a store cls._known[...] = <name> must dominate the return
                 for s in stores:
